@@ -6,7 +6,7 @@ CONSTANTS MaxLen, MaxAfter
 VARIABLES sched, term, half, nafter
 vars == <<sched, term, half, nafter>>
 Init == sched = <<>> /\ term = FALSE /\ half = FALSE /\ nafter = 0
-Pre == {"m", "mh", "mm", "m1", "cn"}
+Pre == {"m", "mh", "mm", "m1", "cn", "mw"}
 \* "idle" needs a server with ReadTimeout: those few schedules are fixed in the driver, not generated here
 GenTerm == Terminators \ {"idle"}
 Step(ev) == /\ sched' = Append(sched, ev)
@@ -16,6 +16,8 @@ Step(ev) == /\ sched' = Append(sched, ev)
 Next == /\ Len(sched) < MaxLen
         /\ \E ev \in Pre \cup {"m2"} \cup GenTerm :
              /\ term => (ev = "cn" /\ nafter < MaxAfter)
+             \* at most one per schedule, right after the first request (there is a channel to watch)
+             /\ ev = "mw" => (Len(sched) = 1 /\ sched[1] \in {"mh", "cn"})
              /\ ~term => ((half => ev \in {"m2", "cn", "eof", "rerr", "lclose"}) /\ (~half => ev # "m2"))
              /\ Step(ev)
 HasRequest == \E i \in 1..Len(sched) : sched[i] \in {"mh", "mm", "cn", "mhp"}
